@@ -1001,6 +1001,10 @@ func (c *client) establishRegion(reg hrpc.RegionInfo, addr string) {
 					c.effectiveUser, c.regionReadTimeout, c.compressionCodec,
 					c.regionDialer, c.logger)
 			})
+			if client == nil {
+				// client has been closed
+				return
+			}
 		}
 
 		// connect to the region's regionserver.
